@@ -241,9 +241,9 @@ Proof.
   intros n cz cpre c qname qtype max Hn Hlen Ecz Hc. pose proof (wf_name_ok n Hn) as Hok.
   unfold find_answer_v1, st1.
   rewrite (v1_fa_walk b recs L st2 HL V2 n Hlen (pack cz) qname qtype n (S (length (pack n))) false _ Hok (Nat.lt_succ_diag_r _)).
-  cbn [bind]. rewrite find_answer_v2_eq.
+  cbn [bind]. rewrite find_answer_v2_eq. rewrite (nlen_pack_rev n).
   pose proof (find_cache_free st2 U fa2_state (fa_parse qname qtype) (fa_pre (pack cz)) fa_post (pack n) L
-                ((wrs_empty, [], false), false, nlen (pack n)) c Hc) as A.
+                ((wrs_empty, [], false), false, nlen (body (rev n)) + 1) c Hc) as A.
   unfold find_pure in A. rewrite (reverse_zone_name_pack n Hn Hlen) in A. cbn [bind] in A.
   assert (Er : rpack n = body (rev n) ++ [0]) by (unfold rpack; apply pack_body).
   assert (Eq : nlen (rpack n) = nlen (body (rev n)) + 1) by (rewrite Er, nlen_app; reflexivity).
@@ -253,11 +253,10 @@ Proof.
     - rewrite <- !app_assoc. rewrite (app_assoc marker). apply is_prefix_app.
     - rewrite !nlen_app. cbn [nlen marker length N.of_nat]. lia.
     - lia. }
-  assert (El : nlen (pack n) = nlen (body (rev ([] ++ n))) + 1) by (cbn [app]; apply nlen_pack_rev).
-  rewrite El in A.
   destruct (fa_sim b recs L st2 W HL V2 n Hok Hlen (pack cz) qname qtype cz cpre eq_refl Ecz (length n) n eq_refl [] []
               (length (pack n) + 2) _ _ false (wrs_empty, [], false) eq_refl eq_refl
               ltac:(pose proof (length_pack_ge n); lia) Hb) as (w' & l' & E).
+  cbn [app] in E.
   match type of A with agrees ?s0 ?P0 ?x0 _ =>
     match type of E with _ = ?v0 => assert (A2 : agrees s0 P0 x0 v0) by (rewrite <- E; exact A) end end.
   clear A E. rename A2 into A.
